@@ -385,6 +385,18 @@ func (P *Prover) nilP(v ssa.Value) Poly {
 		}
 	case *ssa.MakeSlice, *ssa.Alloc, *ssa.MakeMap, *ssa.MakeChan, *ssa.MakeClosure, *ssa.MakeInterface:
 		return constP(0)
+	case *ssa.Slice:
+		// slicing an array (through its pointer) is never nil; slicing a slice keeps nil-ness only for nil
+		if _, isPtr := x.X.Type().Underlying().(*types.Pointer); isPtr {
+			return constP(0)
+		}
+	case *ssa.Call:
+		// append(s, ...) is non-nil whenever s is non-nil
+		if b, ok := x.Call.Value.(*ssa.Builtin); ok && b.Name() == "append" && len(x.Call.Args) > 0 {
+			if c, ok := P.nilP(x.Call.Args[0]).isConst(); ok && c == 0 {
+				return constP(0)
+			}
+		}
 	}
 	return atomP(P.atom(aNil, v, nil, 0, true).id)
 }
